@@ -464,7 +464,13 @@ fn near_part(r: &mut Rng) -> String {
 }
 
 fn near_disclosure(r: &mut Rng) -> String {
-    match r.below(8) {
+    match r.below(10) {
+        8 | 9 => {
+            // a well-formed disclosure text with multi-byte characters, cut at a BYTE offset (inside a string, inside a character)
+            let text = serde_json::to_string(&json!([b64ish(r, 22), format!("n\u{e9}\u{20ac}{}", gen_string(r, false)), {"v": format!("\u{1f600}\u{4e2d}\u{e9}{}", gen_string(r, false)), "w": ["\u{20ac}\u{20ac}", 1]}])).unwrap();
+            let cut = r.range(1, text.len());
+            b64(&text.as_bytes()[..cut])
+        }
         0 => String::new(),
         1 => b64ish(r, 40),
         2 => b64_json(&json!([b64ish(r, 22), gen_string(r, false), gen_leaf(r, false)])),
@@ -1043,7 +1049,16 @@ fn issuer_case(r: &mut Rng) -> (String, IssueArgs, bool) {
         6 => ("claims without iss / exp or with other types there", {
             let mut c = gen_claims(r, &cfg, now);
             let m = c.as_object_mut().unwrap();
-            match r.below(4) {
+            match r.below(6) {
+                4 | 5 => {
+                    // integers at the edges of the machine types, in every pairing
+                    let ext = [json!(-1), json!(0), json!(1), json!(i64::MAX), json!(i64::MIN), json!(u64::MAX), json!(9223372036854775808u64), json!(-9223372036854775807i64), json!(4294967296u64), json!(1e300), json!(-1e300)];
+                    m.insert("iat".into(), r.pick(&ext).clone());
+                    m.insert("exp".into(), r.pick(&ext).clone());
+                    if r.chance(1, 2) {
+                        m.insert("nbf".into(), r.pick(&ext).clone());
+                    }
+                }
                 0 => { m.remove("iss"); }
                 1 => { m.remove("exp"); }
                 2 => { m.insert("iss".into(), json!([1])); }
